@@ -58,11 +58,22 @@ def _dpll(clauses, nv):
     return [v if r.get(v, False) else -v for v in range(1, nv + 1)]
 
 
+# Effort limit (number of propagations, deterministic) for one picosat call; None = no limit.  When the
+# limit is reached the shim raises cirbo's SolverTimeOutError, i.e. what CircuitFinderSat.find_circuit
+# raises when its own `time_limit` expires.  Set by harness/subcorr.run_minimize for the duration of a
+# minimize_subcircuits run (exact synthesis with 5 leaves / 8 gates can take picosat tens of minutes).
+PROPAGATION_LIMIT = None
+
+
 def _picosat(clauses, nv):
     text = f'p cnf {nv} {len(clauses)}\n' + ''.join(' '.join(map(str, c)) + ' 0\n' for c in clauses)
-    p = subprocess.run([_PICOSAT], input=text, capture_output=True, text=True)
+    limit = [] if PROPAGATION_LIMIT is None else ['-P', str(PROPAGATION_LIMIT)]
+    p = subprocess.run([_PICOSAT] + limit, input=text, capture_output=True, text=True)
     if p.returncode == 20:
         return None
+    if p.returncode == 0 and limit and 's UNKNOWN' in p.stdout:
+        from cirbo.synthesis.exception import SolverTimeOutError
+        raise SolverTimeOutError()
     if p.returncode != 10:
         raise RuntimeError('picosat failed: ' + p.stderr[:200])
     model = []
